@@ -148,6 +148,7 @@ def one_tree(ck: Check, root: Node, reqs: list[str], impl: list[str], inputs: li
         ck.case((toks, recfm, len(recs)), feature=f"file/{recfm}" + ("/big" if big else ""))
         ck.oracle_evaluations += 1
         got: list[bytes] = []
+        kept: list[Any] = []
         err = None
         try:
             wb = COBOL_EBCDIC_File("x.data", file_object=io.BytesIO(data), recfm_class=cls, lrecl=1)
@@ -155,10 +156,23 @@ def one_tree(ck: Check, root: Node, reqs: list[str], impl: list[str], inputs: li
             for row in sheet.rows():
                 end = row.nav.location.end  # type: ignore[attr-defined]
                 got.append(bytes(row.instance[:end]))
+                kept.append(row)
                 if len(got) > len(recs) + 5:
                     break
         except BaseException as ex:  # noqa: BLE001
             err = err_enum(ex)
+        # rows that are KEPT (rows = list(sheet.rows())) and looked at after the whole file was read: each is still laid out by
+        # its own counter values, including the items after a table that take part in a REDEFINES
+        if not big and not err and got == recs and len(kept) == len(envs):
+            for k, (row, env) in enumerate(zip(kept, envs)):
+                spec_k = spec_layout(root, env)
+                ck.oracle_evaluations += 1
+                for p2, (s2, e2) in spec_k.items():
+                    r2 = impl_range(row.nav, p2)
+                    if r2 != f"{s2}:{e2}":
+                        ck.fail("odo-layout", f"RECFM {recfm}: row {k} (counts {env}) looked at after the later rows were read: path "
+                                              f"{path_token(p2)} is at {r2}, its own counts put it at {s2}:{e2}", {**inp, "row": k, "path": path_token(p2)})
+                        break
         if err or got != recs:
             ck.fail("odo-file", f"RECFM {recfm}: {len(recs)} records written, read back {len(got)} "
                                 f"(first difference at {next((i for i, (a, b) in enumerate(zip(got, recs)) if a != b), min(len(got), len(recs)))})"
